@@ -129,6 +129,7 @@ fn run_sequence<K: Kit>(prop: &str, sc: &Scenario, seq: &[Op], faults: (Option<u
     let pk = sc.params.pk;
     let ak = api_kit(sc.kit);
     let name = pk.name();
+    crate::explore::watch_desc(|| format!("{{\"scenario\": {:?}, \"calls\": \"{:?}\", \"goal_sampler_faults\": \"{:?}\"}}", sc.tag, seq, faults));
     let mut h = match guarded(|| harness::<K>(sc)) {
         Ok(h) => h,
         Err(_) => {
